@@ -124,7 +124,9 @@ def read_index_lists(cont):
 
 
 def scale_of(V):
-    return max(1.0, float(np.max(np.abs(V)))) if len(V) else 1.0
+    """largest coordinate magnitude (all tolerances are relative to it; 1.0 for an all-zero or empty set)"""
+    s = float(np.max(np.abs(V))) if len(V) else 0.0
+    return s if s > 0 else 1.0
 
 
 def match_new(Pa, Pe, scale):
@@ -544,6 +546,39 @@ def volume_sweep(m, nV, C, sort_on, seed, ctx, where):
 
 # =============================================================================================== surfaces: sub-check
 
+SCALES = [1.0, 1.0, 1.0, 1.0, 1.0, 1e-6, 1e-3, 1e3, 1e6]
+
+
+def draw_scale_and_vform(draw, V, ok_int):
+    """(V', scale label, vform): uniformly scaled coordinates, or integer-typed coordinates (rounded to a 1/16 lattice) when
+    ok_int(Vi) accepts them"""
+    k = draw(st.integers(0, 9))
+    if k == 0:
+        Vi = np.rint(np.array(V, dtype=float) * 16).astype(int)
+        if ok_int(Vi):
+            return Vi.tolist(), 1.0, draw(st.sampled_from(["int", "npint"]))
+    sc = draw(st.sampled_from(SCALES))
+    if sc != 1.0:
+        V = (np.array(V, dtype=float) * sc).tolist()
+    return V, sc, "float"
+
+
+SURF_GROUPS = [["edge_id", "face_to_edges"], ["face_id"], ["is_triangular"], ["boundary_edges", "is_edge_on_border"],
+               ["boundary_vertices", "is_vertex_on_border"], ["next_corner", "vertex_to_faces", "direct_face", "face_to_faces", "opposite_corner"],
+               ["vertex_to_edges"]]
+
+
+def kinds_pool(draw, all_kinds, groups):
+    """half of the time every query kind, otherwise the kinds that fill one particular lazily built table"""
+    return all_kinds if draw(st.booleans()) else draw(st.sampled_from(groups))
+
+
+def surf_queries(draw, lo, hi):
+    pool = kinds_pool(draw, P1.KINDS, SURF_GROUPS)
+    return [[draw(st.sampled_from(pool)), draw(st.integers(0, 10 ** 6)), draw(st.integers(0, 10 ** 6)), draw(st.integers(0, 10 ** 6))]
+            for _ in range(draw(st.integers(lo, hi)))]
+
+
 @st.composite
 def surface_case(draw):
     mode = draw(st.sampled_from(["any", "any", "flat", "flat", "tri"]))
@@ -556,12 +591,56 @@ def surface_case(draw):
         s = draw(G.surfaces(max_faces=36, max_ops=5, keep_isolated=draw(st.integers(0, 9)) == 0))
     nops = draw(st.integers(1, 4))
     ops = [[draw(st.sampled_from(SURF_OPS)), draw(st.integers(0, 10 ** 4)), draw(st.integers(0, 5))] for _ in range(nops)]
-    pre = []
-    if draw(st.booleans()):
-        pre = [[draw(st.sampled_from(P1.KINDS)), draw(st.integers(0, 10 ** 6)), draw(st.integers(0, 10 ** 6)), draw(st.integers(0, 10 ** 6))]
-               for _ in range(draw(st.integers(1, 5)))]
-    return {"V": s["V"], "F": s["F"], "tags": s["tags"], "ops": ops, "pre": pre, "sort": draw(st.integers(0, 3)) != 0,
-            "form": draw(st.sampled_from(["list", "tuple"])), "sweep_seed": draw(st.integers(0, 1000))}
+    # connectivity queried beforehand: nothing / a few individual query kinds (each touches one lazily built table)
+    pre = surf_queries(draw, 1, 4) if draw(st.integers(0, 2)) else []
+    V, sc, vform = draw_scale_and_vform(draw, s["V"], lambda Vi: len(set(map(tuple, Vi.tolist()))) == len(Vi))
+    second = None
+    if draw(st.integers(0, 3)) == 0:
+        # a second editing block on the same object (the result of the first block or the object given to it)
+        second = {"on": draw(st.sampled_from(["result", "input"])), "sweep_first": draw(st.booleans()),
+                  "pre": surf_queries(draw, 0, 3),
+                  "ops": [[draw(st.sampled_from(SURF_OPS)), draw(st.integers(0, 10 ** 4)), draw(st.integers(0, 5))] for _ in range(draw(st.integers(1, 2)))]}
+    return {"V": V, "F": s["F"], "tags": s["tags"], "ops": ops, "pre": pre, "sort": draw(st.integers(0, 3)) != 0,
+            "form": draw(st.sampled_from(["list", "tuple"])), "sweep_seed": draw(st.integers(0, 1000)),
+            "scale": sc, "vform": vform, "verbose": draw(st.integers(0, 4)) == 0, "second": second}
+
+
+def build_vertices(raw, V, vform):
+    if vform == "int":
+        raw.vertices += [[int(x) for x in v] for v in V]
+    elif vform == "npint":
+        raw.vertices += [np.array(v, dtype=np.int64) for v in V]
+    else:
+        raw.vertices += [list(map(float, v)) for v in V]
+
+
+def build_surface(V, F, form, vform):
+    import mouette as M
+    from mouette.mesh.mesh_data import RawMeshData
+    if vform == "float":
+        return surface_from(V, F, None, form)
+    raw = RawMeshData()
+    build_vertices(raw, V, vform)
+    raw.faces += [tuple(f) if form == "tuple" else list(f) for f in F]
+    return M.mesh.SurfaceMesh(raw)
+
+
+SURF_TABLE = {"edge_id": "edge-id", "face_to_edges": "edge-id", "face_id": "face-id", "is_triangular": "type",
+              "is_edge_on_border": "border", "boundary_edges": "border", "boundary_vertices": "border", "is_vertex_on_border": "border",
+              "face_to_vertices": "none", "in_face_index": "none", "other_edge_end": "none", "edge_to_vertices": "none", "corner_to_face": "none",
+              "vertex_to_edges": "half-edges+edge-id"}
+
+
+def label_pre(ctx, queries, table, prefix="pre"):
+    """which lazily built tables the preliminary queries touched"""
+    if not queries:
+        ctx.label(prefix + "-tables=nothing")
+        return
+    ts = set()
+    for q in queries:
+        ts.update(table.get(q[0], "half-edges" if table is SURF_TABLE else "other").split("+"))
+    ts.discard("none")
+    ctx.label(prefix + "-tables=" + ("+".join(sorted(ts)) if len(ts) <= 2 else "3-or-more") if ts else prefix + "-tables=nothing")
 
 
 def surface_invariants(ctx, V0, F0, SR, flat, what):
@@ -587,7 +666,7 @@ def surface_invariants(ctx, V0, F0, SR, flat, what):
     return ok
 
 
-def check_input_object(ctx, m, snap, SR, refs, sort_on, seed, observe, sweep, what):
+def check_input_object(ctx, m, snap, SR, refs, sort_on, seed, observe, sweep, what, do_sweep=True):
     """the object given to the editor: consistent, and equal either to its snapshot or to the result"""
     pc = Pfx(ctx, "input:")
     Sin = observe(m, pc, what)
@@ -597,12 +676,106 @@ def check_input_object(ctx, m, snap, SR, refs, sort_on, seed, observe, sweep, wh
     if not pc.check(not d_snap or not d_res, "mixture",
                     f"{what}: the object passed to the editor is neither its former self (differs in {d_snap}) nor the result (differs in {d_res})"):
         return
+    ctx.label("input=result" if not d_res else "input=unchanged")
+    if not do_sweep:
+        return
     if not d_res:
-        ctx.label("input=result")
         sweep(m, refs[1][0], refs[1][1], sort_on, seed, pc, what + " [input object, expected to describe the result]")
     else:
-        ctx.label("input=unchanged")
         sweep(m, refs[0][0], refs[0][1], sort_on, seed, pc, what + " [input object, expected to describe the original]")
+
+
+def run_surface_block(ctx, m, V0, F, flat, ops, sort_on, seed, verbose, tag, do_sweep):
+    """one editing block on the surface object m whose state is (V0,F). Returns (result object, its observed state) or None."""
+    import mouette as M
+    snap = observe_surface(m, ctx, tag + "input of the block")
+    if snap is None:
+        return None
+    ok, ed = ctx.call("editor:init", M.mesh.SurfaceSubdivision, m, verbose)
+    if not ok:
+        return None
+    ok, _ = ctx.call("editor:enter", ed.__enter__)
+    if not ok:
+        return None
+    cur = observe_surface(ed.mesh, ctx, tag + "editor state on entering the block")
+    if cur is None:
+        return None
+    if not ctx.check(not same_state(cur, snap, with_corners=False), "editor:enter", f"{tag}entering the block changed {same_state(cur, snap, False)}"):
+        return None
+    done = []
+    for k, (name, a, b) in enumerate(ops):
+        nF = len(cur.F)
+        n = 1
+        arg = None
+        if name in ("triangulate_face", "fan"):
+            arg = a % nF
+        if name in ("loop", "sub6"):
+            n = 2 if b == 0 else 1
+        if sum(1 if len(f) == 3 else len(f) for f in cur.F) * growth(name, n) > MAX_FACES:
+            ctx.label("op-skipped-size")
+            continue
+        what = f"{tag}op #{k} {name}({arg if arg is not None else (n if name in ('loop', 'sub6') else '')}) after {done}"
+        ctx.label("op=" + name + (str(n) if name in ("loop", "sub6") else ""))
+        if not cur.all_tri and name in ("loop", "quads3", "sub6"):
+            ctx.label("op-triangulates-first")
+        ok, _ = ctx.call("op:" + name, apply_surface_op, ed, name, arg, n)
+        if not ok:
+            return None
+        done.append(name)
+        nxt = observe_surface(ed.mesh, ctx, what)
+        if nxt is None:
+            return None
+        steps = decompose(name, n, cur.all_tri)
+        if steps is None:
+            if not check_single_step(ctx, name, arg, cur, nxt, what):
+                return None
+        else:
+            exp = shadow_run(ctx, cur, steps, what)
+            if exp is None:
+                return None
+            if not compare_refinement(ctx, nxt, exp.V, exp.F, len(cur.V), what + f" vs its documented decomposition {steps}"):
+                return None
+            if name == "sub6" and n == 1:
+                # docstring: "splitting the quads along the corner-barycenter diagonal", i.e. every triangle would contain a
+                # face centre (the centres are the last |T| vertices of one round). Outside the registered statement
+                # (counts, validity, positions hold either way): measured as a label, not asserted.
+                nb = len(nxt.V) - len(nxt.F) // 6
+                if not all(any(v >= nb for v in f) for f in nxt.F):
+                    ctx.label("sub6:diagonal-is-not-corner-barycentre")
+        if not surface_invariants(ctx, V0, F, nxt, flat, what + " [editor state]"):
+            return None
+        cur = nxt
+    ok, _ = ctx.call("editor:exit", ed.__exit__, None, None, None)
+    if not ok:
+        return None
+    R = ed.mesh
+    if not ctx.check(isinstance(R, M.mesh.SurfaceMesh), "result:type", f"{tag}editor.mesh after the block is a {type(R).__name__}"):
+        return None
+    SR = observe_surface(R, ctx, tag + "result")
+    if SR is None:
+        return None
+    what = f"{tag}result of {done}"
+    if not ctx.check(SR.V.tobytes() == cur.V.tobytes() and SR.F == cur.F, "editor:exit", f"{what}: leaving the block changed vertices or faces"):
+        return None
+    if not surface_invariants(ctx, V0, F, SR, flat, what):
+        return None
+    exp_c = ([v for f in SR.F for v in f], [i for i, f in enumerate(SR.F) for _ in f])
+    ctx.check(SR.corners == exp_c, "result:corners", f"{what}: corner records are not 'every vertex of every face, face by face'")
+    if do_sweep:
+        surface_sweep(R, len(SR.V), SR.F, sort_on, seed, ctx, what + " [result object]")
+    check_input_object(ctx, m, snap, SR, ((len(V0), F), (len(SR.V), SR.F)), sort_on, seed + 1, observe_surface, surface_sweep, what, do_sweep)
+    return R, SR
+
+
+def surface_queries(ctx, m, V, F, queries, sort_on, where):
+    ref = SurfRef(len(V), F)
+    medges = sorted(ref.uedges)
+    got = read_index_lists(m.edges)
+    if got is not None and all(len(e) == 2 for e in got):
+        medges = [tuple(e) for e in got]
+    eid = {e: i for i, e in enumerate(medges)}
+    for q in queries:
+        P1.do_query(m, ref, medges, eid, sort_on, q, ctx, where)
 
 
 def fn_surface(case, ctx):
@@ -617,99 +790,34 @@ def fn_surface(case, ctx):
             ctx.label(t)
     V0 = np.array(V, dtype=float).reshape(-1, 3)
     flat = is_flat(V0, F)
-    ctx.label("flat" if flat else "not-flat", "pre-queried" if case["pre"] else "not-pre-queried", f"nops={len(case['ops'])}")
+    second = case.get("second")
+    ctx.label("flat" if flat else "not-flat", "pre-queried" if case["pre"] else "not-pre-queried", f"nops={len(case['ops'])}",
+              f"scale={case.get('scale', 1.0):g}", "coords=" + case.get("vform", "float"), "second-block=" + (second["on"] if second else "no"))
+    label_pre(ctx, case["pre"], SURF_TABLE)
     if quads_with_diagonal_edge(F):
         ctx.label("quad-whose-cut-diagonal-is-an-edge")
     has_border = bool(ref0.border_loops())
-    ctx.nontrivial(has_border or any(len(f) != 3 for f in F) or len(case["ops"]) >= 2)
+    ctx.nontrivial(has_border or any(len(f) != 3 for f in F) or len(case["ops"]) >= 2 or bool(second))
 
     M.config.sort_neighborhoods = bool(case["sort"])
-    m = surface_from(V, F, None, case["form"])
-    snap0 = observe_surface(m, ctx, "freshly built input")
-    if snap0 is None:
+    m = build_surface(V, F, case["form"], case.get("vform", "float"))
+    surface_queries(Pfx(ctx, "pre:"), m, V, F, case["pre"], case["sort"], "query before editing")
+    sweep1 = not second or second["sweep_first"]
+    r = run_surface_block(ctx, m, V0, F, flat, case["ops"], case["sort"], case["sweep_seed"], bool(case.get("verbose")), "", sweep1)
+    if r is None or not second:
         return
-    medges = list(snap0.E)
-    eid = {e: i for i, e in enumerate(medges)}
-    for q in case["pre"]:
-        P1.do_query(m, ref0, medges, eid, case["sort"], q, Pfx(ctx, "pre:"), "query before editing")
-    snap = observe_surface(m, ctx, "input after the preliminary queries")
-    if snap is None:
+    # ---- the same object is edited a second time (after a full sweep, a few single queries, or no query at all)
+    R, SR = r
+    target = R if second["on"] == "result" else m
+    St = observe_surface(target, ctx, "object edited a second time")
+    if St is None:
         return
-
-    ok, ed = ctx.call("editor:init", M.mesh.SurfaceSubdivision, m)
-    if not ok:
-        return
-    ok, _ = ctx.call("editor:enter", ed.__enter__)
-    if not ok:
-        return
-    cur = observe_surface(ed.mesh, ctx, "editor state on entering the block")
-    if cur is None:
-        return
-    if not ctx.check(not same_state(cur, snap, with_corners=False), "editor:enter", f"entering the block changed {same_state(cur, snap, False)}"):
-        return
-    done = []
-    for k, (name, a, b) in enumerate(case["ops"]):
-        nF = len(cur.F)
-        n = 1
-        arg = None
-        if name in ("triangulate_face", "fan"):
-            arg = a % nF
-        if name == "loop":
-            n = 2 if b == 0 else 1
-        if name == "sub6":
-            n = 2 if b == 0 else 1
-        if sum(1 if len(f) == 3 else len(f) for f in cur.F) * growth(name, n) > MAX_FACES:
-            ctx.label("op-skipped-size")
-            continue
-        what = f"op #{k} {name}({arg if arg is not None else (n if name in ('loop', 'sub6') else '')}) after {done}"
-        ctx.label("op=" + name + (str(n) if name in ("loop", "sub6") else ""))
-        if not cur.all_tri and name in ("loop", "quads3", "sub6"):
-            ctx.label("op-triangulates-first")
-        ok, _ = ctx.call("op:" + name, apply_surface_op, ed, name, arg, n)
-        if not ok:
-            return
-        done.append(name)
-        nxt = observe_surface(ed.mesh, ctx, what)
-        if nxt is None:
-            return
-        steps = decompose(name, n, cur.all_tri)
-        if steps is None:
-            if not check_single_step(ctx, name, arg, cur, nxt, what):
-                return
-        else:
-            exp = shadow_run(ctx, cur, steps, what)
-            if exp is None:
-                return
-            if not compare_refinement(ctx, nxt, exp.V, exp.F, len(cur.V), what + f" vs its documented decomposition {steps}"):
-                return
-            if name == "sub6" and n == 1:
-                # docstring: "splitting the quads along the corner-barycenter diagonal", i.e. every triangle would contain a
-                # face centre (the centres are the last |T| vertices of one round). Outside the registered statement
-                # (counts, validity, positions hold either way): measured as a label, not asserted.
-                nb = len(nxt.V) - len(nxt.F) // 6
-                if not all(any(v >= nb for v in f) for f in nxt.F):
-                    ctx.label("sub6:diagonal-is-not-corner-barycentre")
-        if not surface_invariants(ctx, V0, F, nxt, flat, what + " [editor state]"):
-            return
-        cur = nxt
-    ok, _ = ctx.call("editor:exit", ed.__exit__, None, None, None)
-    if not ok:
-        return
-    R = ed.mesh
-    if not ctx.check(isinstance(R, M.mesh.SurfaceMesh), "result:type", f"editor.mesh after the block is a {type(R).__name__}"):
-        return
-    SR = observe_surface(R, ctx, "result")
-    if SR is None:
-        return
-    what = f"result of {done}"
-    if not ctx.check(SR.V.tobytes() == cur.V.tobytes() and SR.F == cur.F, "editor:exit", f"{what}: leaving the block changed vertices or faces"):
-        return
-    if not surface_invariants(ctx, V0, F, SR, flat, what):
-        return
-    exp_c = ([v for f in SR.F for v in f], [i for i, f in enumerate(SR.F) for _ in f])
-    ctx.check(SR.corners == exp_c, "result:corners", f"{what}: corner records are not 'every vertex of every face, face by face'")
-    surface_sweep(R, len(SR.V), SR.F, case["sort"], case["sweep_seed"], ctx, what + " [result object]")
-    check_input_object(ctx, m, snap, SR, ((len(V), F), (len(SR.V), SR.F)), case["sort"], case["sweep_seed"] + 1, observe_surface, surface_sweep, what)
+    if sweep1:
+        ctx.label("between-blocks-tables=all")
+    else:
+        label_pre(ctx, second["pre"], SURF_TABLE, "between-blocks")
+    surface_queries(ctx, target, St.V, St.F, second["pre"], case["sort"], "query between the two editing blocks")
+    run_surface_block(ctx, target, St.V, St.F, flat, second["ops"], case["sort"], case["sweep_seed"] + 7, False, "second block: ", True)
 
 
 # =============================================================================================== split_double_boundary_edges_triangles
@@ -718,8 +826,11 @@ def fn_surface(case, ctx):
 def ears_case(draw):
     s = draw(G.surfaces(max_faces=40, triangulated=True, max_ops=5,
                         bases=["grid", "cyl_u", "fan_open", "fan_closed", "strip", "polygon", "octa", "antiprism", "strip", "polygon"]))
-    return {"V": s["V"], "F": s["F"], "tags": s["tags"], "pre": draw(st.booleans()), "sort": draw(st.integers(0, 3)) != 0,
-            "sweep_seed": draw(st.integers(0, 1000))}
+    k = draw(st.integers(0, 3))
+    pre = [] if k == 0 else "all" if k == 1 else surf_queries(draw, 1, 3)
+    V, sc, vform = draw_scale_and_vform(draw, s["V"], lambda Vi: len(set(map(tuple, Vi.tolist()))) == len(Vi))
+    return {"V": V, "F": s["F"], "tags": s["tags"], "pre": pre, "sort": draw(st.integers(0, 3)) != 0,
+            "sweep_seed": draw(st.integers(0, 1000)), "scale": sc, "vform": vform, "twice": draw(st.booleans())}
 
 
 def fn_ears(case, ctx):
@@ -730,12 +841,16 @@ def fn_ears(case, ctx):
         raise AssertionError("invalid generated case")
     V0 = np.array(V, dtype=float).reshape(-1, 3)
     ears = [i for i, f in enumerate(F) if sum(1 for j in range(3) if ref0.edge_on_border(f[j], f[(j + 1) % 3])) >= 2]
-    ctx.label(f"ears={min(len(ears), 3)}", "pre-queried" if case["pre"] else "not-pre-queried")
+    ctx.label(f"ears={min(len(ears), 3)}", "pre-queried=" + ("all" if case["pre"] == "all" else "some" if case["pre"] else "no"),
+              f"scale={case.get('scale', 1.0):g}", "coords=" + case.get("vform", "float"))
     ctx.nontrivial(bool(ears))
     M.config.sort_neighborhoods = bool(case["sort"])
-    m = surface_from(V, F)
-    if case["pre"]:
+    m = build_surface(V, F, "list", case.get("vform", "float"))
+    if case["pre"] == "all":
         surface_sweep(m, len(V), F, case["sort"], case["sweep_seed"], Pfx(ctx, "pre:"), "before editing")
+    elif case["pre"]:
+        label_pre(ctx, case["pre"], SURF_TABLE)
+        surface_queries(Pfx(ctx, "pre:"), m, V, F, case["pre"], case["sort"], "query before editing")
     snap = observe_surface(m, ctx, "input")
     if snap is None:
         return
@@ -763,10 +878,18 @@ def fn_ears(case, ctx):
         return
     refR = SurfRef(len(SR.V), SR.F)
     left = [f for f in SR.F if sum(1 for j in range(3) if refR.edge_on_border(f[j], f[(j + 1) % 3])) >= 2]
-    ctx.check(not left or len(SR.F) == 1 + 2 * len(ears) and len(F) == 1, "postcondition", f"{what}: triangles {left[:3]} still have two border edges")
+    ctx.check(not left, "postcondition", f"{what}: triangles {left[:3]} still have two border edges")
     exp_c = ([v for f in SR.F for v in f], [i for i, f in enumerate(SR.F) for _ in f])
     pin.check(SR.corners == exp_c, "corners", f"{what}: corner records of the returned mesh are not 'every vertex of every face, face by face'")
     surface_sweep(ret, len(SR.V), SR.F, case["sort"], case["sweep_seed"] + 1, pin, what + " [returned = input object]")
+    if case.get("twice"):
+        # the same (now fully queried) object once more: nothing is left to split
+        ok, ret2 = ctx.call("op:split_double_boundary_edges_triangles", M.mesh.split_double_boundary_edges_triangles, ret)
+        if ok and ctx.check(ret2 is m, "return", f"{what}: second call returned another object"):
+            S2 = observe_surface(ret2, pin, what + " / second call")
+            if S2 is not None:
+                ctx.check(not same_state(S2, SR), "noop", f"{what}: a second call on the result changed {same_state(S2, SR)}")
+                surface_sweep(ret2, len(S2.V), S2.F, case["sort"], case["sweep_seed"] + 2, pin, what + " [after a second call]")
 
 
 # =============================================================================================== volumes
@@ -966,56 +1089,90 @@ def check_volume_corner_records(ctx, R, SR, what):
     ctx.check(good, "result:corners", f"{what}: cell_faces do not list, for every cell, the face opposite each of its vertices ({len(cf)} records for {len(SR.C)} cells)")
 
 
+VOL_TABLE = {"face_to_cells": "cell-adj", "cell_to_face": "cell-adj", "other_face_side": "cell-adj", "is_face_on_border": "cell-adj+border",
+             "is_face_on_border_v": "cell-adj+face-id+border", "border_faces": "cell-adj+border", "border_edges": "cell-adj+edge-id+border",
+             "border_vertices": "cell-adj+border", "is_edge_on_border": "cell-adj+edge-id+border", "is_edge_on_border_uv": "cell-adj+edge-id+border",
+             "is_vertex_on_border": "cell-adj+border", "cell_to_cell": "cell-adj+cell-cell", "edge_to_cell": "cell-adj+edge-id",
+             "edge_to_face": "cell-adj+edge-id", "edge_id": "cell-adj+edge-id", "cell_to_edge": "cell-adj+edge-id", "vertex_to_cell": "half-edges",
+             "in_cell_index": "none", "in_cell_face_index": "none", "cell_to_vertex": "none", "common_face": "face-id", "face_id": "face-id"}
+
+
+VOL_GROUPS = [["cell_to_cell"], ["face_id", "common_face"], ["face_to_cells", "cell_to_face", "other_face_side"], ["edge_id", "edge_to_cell", "edge_to_face"],
+              ["cell_to_edge"], ["vertex_to_cell"], ["border_faces", "is_face_on_border"], ["border_edges", "is_edge_on_border"],
+              ["border_vertices", "is_vertex_on_border"]]
+
+
+def vol_queries(draw, lo, hi):
+    pool = kinds_pool(draw, P3.KINDS, VOL_GROUPS)
+    return [[draw(st.sampled_from(pool)), draw(st.integers(0, 10 ** 6)), draw(st.integers(0, 10 ** 6))] for _ in range(draw(st.integers(lo, hi)))]
+
+
+def vol_ops(draw, lo, hi):
+    return [[draw(st.sampled_from(["cell_fan", "face_split", "face_split"])), draw(st.integers(0, 10 ** 4)), draw(st.integers(0, 10 ** 4))]
+            for _ in range(draw(st.integers(lo, hi)))]
+
+
 @st.composite
 def volume_case(draw):
     t = draw(GT.tets(max_cells=24))
-    nops = draw(st.integers(1, 4))
-    ops = [[draw(st.sampled_from(["cell_fan", "face_split", "face_split"])), draw(st.integers(0, 10 ** 4)), draw(st.integers(0, 10 ** 4))] for _ in range(nops)]
-    pre = []
-    if draw(st.booleans()):
-        pre = [[draw(st.sampled_from(P3.KINDS)), draw(st.integers(0, 10 ** 6)), draw(st.integers(0, 10 ** 6))] for _ in range(draw(st.integers(1, 5)))]
-    return {"V": t["V"], "C": t["C"], "tags": t["tags"], "ops": ops, "pre": pre, "sort": draw(st.integers(0, 3)) != 0,
-            "form": draw(st.sampled_from(["list", "tuple"])), "sweep_seed": draw(st.integers(0, 1000))}
+    d0 = [GT.lib_det(t["V"], c) for c in t["C"]]
+
+    def ok_int(Vi):
+        d1 = [GT.lib_det(Vi.tolist(), c) for c in t["C"]]
+        return all(x * y > 0 and abs(y) >= 1 for x, y in zip(d0, d1))
+    V, sc, vform = draw_scale_and_vform(draw, t["V"], ok_int)
+    pre = vol_queries(draw, 1, 4) if draw(st.integers(0, 2)) else []
+    second = None
+    if draw(st.integers(0, 3)) == 0:
+        second = {"on": draw(st.sampled_from(["result", "input"])), "sweep_first": draw(st.booleans()), "pre": vol_queries(draw, 0, 3), "ops": vol_ops(draw, 1, 2)}
+    return {"V": V, "C": t["C"], "tags": t["tags"], "ops": vol_ops(draw, 1, 4), "pre": pre, "sort": draw(st.integers(0, 3)) != 0,
+            "form": draw(st.sampled_from(["list", "tuple"])), "sweep_seed": draw(st.integers(0, 1000)),
+            "scale": sc, "vform": vform, "verbose": draw(st.integers(0, 4)) == 0, "second": second}
 
 
-def fn_volume(case, ctx):
+def build_volume(V, C, form, vform):
     import mouette as M
-    V, C = case["V"], [list(c) for c in case["C"]]
-    V0 = np.array(V, dtype=float).reshape(-1, 3)
-    if tet_complex_error(len(V), C) is not None:
-        raise AssertionError("invalid generated case")
-    ref0 = TetRef(len(V), C)
-    for t in case.get("tags", []):
-        if t.startswith(("interior", "all-", "mixed", "base=")):
-            ctx.label(t)
-    ctx.label("pre-queried" if case["pre"] else "not-pre-queried", f"nops={len(case['ops'])}")
-    ctx.nontrivial(any(len(cs) == 2 for cs in ref0.f2c.values()) or len(case["ops"]) >= 2)
-    M.config.sort_neighborhoods = bool(case["sort"])
-    m = volume_from(V, C, case["form"])
-    if case["pre"]:
-        pc = Pfx(ctx, "pre:")
-        P3._be_cache.clear()
-        mfaces, fid, medges, eid, ok = P3.containers(m, ref0, pc)
-        if not ok:
-            return
-        for q in case["pre"]:
-            P3.do_query(m, ref0, (mfaces, fid, medges, eid), case["sort"], q, pc, "query before editing")
-    snap = observe_volume(m, ctx, "input")
-    if snap is None:
-        return
-    ok, ed = ctx.call("editor:init", M.mesh.VolumeSubdivision, m)
+    from mouette.mesh.mesh_data import RawMeshData
+    if vform == "float":
+        return volume_from(V, C, form)
+    raw = RawMeshData()
+    build_vertices(raw, V, vform)
+    raw.cells += [tuple(c) if form == "tuple" else list(c) for c in C]
+    return M.mesh.VolumeMesh(raw)
+
+
+def volume_queries(ctx, m, nV, C, queries, sort_on, where):
+    if not queries:
+        return True
+    ref = TetRef(nV, C)
+    P3._be_cache.clear()
+    mfaces, fid, medges, eid, ok = P3.containers(m, ref, ctx)
     if not ok:
-        return
+        return False
+    for q in queries:
+        P3.do_query(m, ref, (mfaces, fid, medges, eid), sort_on, q, ctx, where)
+    return True
+
+
+def run_volume_block(ctx, m, V0, C, ops, sort_on, seed, verbose, tag, do_sweep):
+    """one editing block on the tetrahedral mesh object m whose state is (V0,C). Returns (result object, observed state) or None"""
+    import mouette as M
+    snap = observe_volume(m, ctx, tag + "input of the block")
+    if snap is None:
+        return None
+    ok, ed = ctx.call("editor:init", M.mesh.VolumeSubdivision, m, verbose)
+    if not ok:
+        return None
     ok, _ = ctx.call("editor:enter", ed.__enter__)
     if not ok:
-        return
-    cur = observe_volume(ed.mesh, ctx, "editor state on entering the block")
+        return None
+    cur = observe_volume(ed.mesh, ctx, tag + "editor state on entering the block")
     if cur is None:
-        return
-    if not ctx.check(not same_vstate(cur, snap, with_corners=False), "editor:enter", f"entering the block changed {same_vstate(cur, snap, False)}"):
-        return
+        return None
+    if not ctx.check(not same_vstate(cur, snap, with_corners=False), "editor:enter", f"{tag}entering the block changed {same_vstate(cur, snap, False)}"):
+        return None
     done = []
-    for k, (name, a, b) in enumerate(case["ops"]):
+    for k, (name, a, b) in enumerate(ops):
         if name == "cell_fan":
             arg = a % len(cur.C)
             fnc = ed.split_cell_as_fan
@@ -1031,59 +1188,106 @@ def fn_volume(case, ctx):
             if len(cur.F[arg]) != 3:
                 continue
             fnc = ed.split_tet_from_face_center
-        what = f"op #{k} {name}({arg}) after {done}"
+        what = f"{tag}op #{k} {name}({arg}) after {done}"
         if name == "face_split":
             ncell = sum(1 for cl in cur.C if set(cur.F[arg]) <= set(cl))
             if not ctx.check(ncell in (1, 2), "editor:faces", f"{what}: face {cur.F[arg]} of the editor's face list belongs to {ncell} cells"):
-                return
+                return None
             ctx.label("face_split:" + ("interior" if ncell == 2 else "border"))
         ctx.label("op=" + name)
         ok, _ = ctx.call("op:" + name, fnc, arg)
         if not ok:
-            return
+            return None
         done.append(name)
         nxt = observe_volume(ed.mesh, ctx, what)
         if nxt is None:
-            return
+            return None
         if not check_cell_step(ctx, name, arg, cur, nxt, what):
-            return
+            return None
         cur = nxt
     ok, _ = ctx.call("editor:exit", ed.__exit__, None, None, None)
     if not ok:
-        return
+        return None
     R = ed.mesh
-    if not ctx.check(isinstance(R, M.mesh.VolumeMesh), "result:type", f"editor.mesh after the block is a {type(R).__name__}"):
-        return
-    SR = observe_volume(R, ctx, "result")
+    if not ctx.check(isinstance(R, M.mesh.VolumeMesh), "result:type", f"{tag}editor.mesh after the block is a {type(R).__name__}"):
+        return None
+    SR = observe_volume(R, ctx, tag + "result")
     if SR is None:
-        return
-    what = f"result of {done}"
+        return None
+    what = f"{tag}result of {done}"
     if not ctx.check(SR.V.tobytes() == cur.V.tobytes() and SR.C == cur.C, "editor:exit", f"{what}: leaving the block changed vertices or cells"):
-        return
+        return None
     if not volume_invariants(ctx, V0, C, SR, what):
-        return
+        return None
     check_volume_corner_records(ctx, R, SR, what)
-    volume_sweep(R, len(SR.V), SR.C, case["sort"], case["sweep_seed"], ctx, what + " [result object]")
-
-    def sweep(mm, nV, CC, sort_on, seed, c2, w):
-        return volume_sweep(mm, nV, CC, sort_on, seed, c2, w)
+    if do_sweep:
+        volume_sweep(R, len(SR.V), SR.C, sort_on, seed, ctx, what + " [result object]")
     pc = Pfx(ctx, "input:")
     Sin = observe_volume(m, pc, what)
     if Sin is None:
-        return
+        return R, SR
     d_snap, d_res = same_vstate(Sin, snap), same_vstate(Sin, SR)
     if not pc.check(not d_snap or not d_res, "mixture",
                     f"{what}: the object passed to the editor is neither its former self (differs in {d_snap}) nor the result (differs in {d_res})"):
+        return R, SR
+    ctx.label("input=result" if not d_res else "input=unchanged")
+    if do_sweep:
+        if not d_res:
+            volume_sweep(m, len(SR.V), SR.C, sort_on, seed + 1, pc, what + " [input object, expected to describe the result]")
+        else:
+            volume_sweep(m, len(V0), C, sort_on, seed + 1, pc, what + " [input object, expected to describe the original]")
+    return R, SR
+
+
+def fn_volume(case, ctx):
+    import mouette as M
+    V, C = case["V"], [list(c) for c in case["C"]]
+    V0 = np.array(V, dtype=float).reshape(-1, 3)
+    if tet_complex_error(len(V), C) is not None:
+        raise AssertionError("invalid generated case")
+    ref0 = TetRef(len(V), C)
+    for t in case.get("tags", []):
+        if t.startswith(("interior", "all-", "mixed", "base=")):
+            ctx.label(t)
+    second = case.get("second")
+    ctx.label("pre-queried" if case["pre"] else "not-pre-queried", f"nops={len(case['ops'])}", f"scale={case.get('scale', 1.0):g}",
+              "coords=" + case.get("vform", "float"), "second-block=" + (second["on"] if second else "no"))
+    label_pre(ctx, case["pre"], VOL_TABLE)
+    ctx.nontrivial(any(len(cs) == 2 for cs in ref0.f2c.values()) or len(case["ops"]) >= 2 or bool(second))
+    M.config.sort_neighborhoods = bool(case["sort"])
+    m = build_volume(V, C, case["form"], case.get("vform", "float"))
+    if not volume_queries(Pfx(ctx, "pre:"), m, len(V), C, case["pre"], case["sort"], "query before editing"):
         return
-    if not d_res:
-        ctx.label("input=result")
-        sweep(m, len(SR.V), SR.C, case["sort"], case["sweep_seed"] + 1, pc, what + " [input object, expected to describe the result]")
+    sweep1 = not second or second["sweep_first"]
+    r = run_volume_block(ctx, m, V0, C, case["ops"], case["sort"], case["sweep_seed"], bool(case.get("verbose")), "", sweep1)
+    if r is None or not second:
+        return
+    R, SR = r
+    target = R if second["on"] == "result" else m
+    St = observe_volume(target, ctx, "object edited a second time")
+    if St is None:
+        return
+    if tet_complex_error(len(St.V), St.C) is not None:
+        return      # (input object left in a state already reported / excluded under 'input:')
+    if sweep1:
+        ctx.label("between-blocks-tables=all")
     else:
-        ctx.label("input=unchanged")
-        sweep(m, len(V), C, case["sort"], case["sweep_seed"] + 1, pc, what + " [input object, expected to describe the original]")
+        label_pre(ctx, second["pre"], VOL_TABLE, "between-blocks")
+    if not volume_queries(ctx, target, len(St.V), St.C, second["pre"], case["sort"], "query between the two editing blocks"):
+        return
+    run_volume_block(ctx, target, St.V, St.C, second["ops"], case["sort"], case["sweep_seed"] + 7, False, "second block: ", True)
 
 
 # =============================================================================================== polylines
+
+POLY_KINDS = ["edge_id", "vertex_to_vertices", "vertex_to_edges", "other_edge_end", "edge_to_vertices"]
+POLY_TABLE = {"edge_id": "edge-id", "vertex_to_vertices": "adjacency", "vertex_to_edges": "adjacency+edge-id", "other_edge_end": "none", "edge_to_vertices": "none"}
+
+
+def poly_queries(draw, lo, hi):
+    pool = kinds_pool(draw, POLY_KINDS, [["edge_id"], ["vertex_to_vertices"], ["vertex_to_edges"]])
+    return [[draw(st.sampled_from(pool)), draw(st.integers(0, 10 ** 4)), draw(st.integers(0, 10 ** 4))] for _ in range(draw(st.integers(lo, hi)))]
+
 
 @st.composite
 def polyline_case(draw):
@@ -1102,10 +1306,23 @@ def polyline_case(draw):
     if not E:
         E = [(0, 1)]
     E = [list(e) if draw(st.booleans()) else [e[1], e[0]] for e in E]
-    co = st.floats(-4, 4, allow_nan=False, width=32)
-    V = [[draw(co), draw(co), draw(co)] for _ in range(n)]
+    vform = draw(st.sampled_from(["float", "float", "float", "int", "npint"]))
+    if vform == "float":
+        co = st.floats(-4, 4, allow_nan=False, width=32)
+        sc = draw(st.sampled_from(SCALES))
+        V = [[draw(co) * sc, draw(co) * sc, draw(co) * sc] for _ in range(n)]
+    else:
+        sc = 1.0
+        V = [[draw(st.integers(-9, 9)), draw(st.integers(-9, 9)), draw(st.integers(-9, 9))] for _ in range(n)]
     ops = draw(st.lists(st.integers(0, 10 ** 4), min_size=1, max_size=4))
-    return {"V": V, "E": E, "ops": ops, "pre": draw(st.booleans()), "query_between": draw(st.booleans()), "kind": kind}
+    # connectivity before the first split and between splits: nothing / single queries (each fills one table) / everything
+    mode = draw(st.sampled_from(["none", "some", "some", "all"]))
+    pre = poly_queries(draw, 1, 3) if mode == "some" else mode
+    between = []
+    for _ in ops:
+        k = draw(st.integers(0, 3))
+        between.append("none" if k == 0 else "all" if k == 1 else poly_queries(draw, 1, 3))
+    return {"V": V, "E": E, "ops": ops, "pre": pre, "between": between, "kind": kind, "scale": sc, "vform": vform}
 
 
 def polyline_sweep(pl, nV, medges, ctx, where):
@@ -1115,37 +1332,99 @@ def polyline_sweep(pl, nV, medges, ctx, where):
     for a, b in medges:
         nbr[a].add(b); nbr[b].add(a)
     for v in range(nV):
-        ok, r = ctx.call("q:vertex_to_vertices", C.vertex_to_vertices, v)
-        if ok:
-            ctx.check(r is not None and sorted(ints(r)) == sorted(nbr[v]), "q:vertex_to_vertices", f"{where}: vertex_to_vertices({v}) = {r}, edges say {sorted(nbr[v])}")
-        ok, r = ctx.call("q:vertex_to_edges", C.vertex_to_edges, v)
-        if ok:
-            ctx.check(r is not None and None not in r and sorted(r) == sorted(eid[key(v, w)] for w in nbr[v]), "q:vertex_to_edges", f"{where}: vertex_to_edges({v}) = {r}")
+        polyline_query(pl, nV, medges, eid, nbr, ["vertex_to_vertices", v, 0], ctx, where)
+        polyline_query(pl, nV, medges, eid, nbr, ["vertex_to_edges", v, 0], ctx, where)
         for w in range(nV):
-            ok, r = ctx.call("q:edge_id", C.edge_id, v, w)
-            if ok:
-                exp = eid.get(key(v, w)) if v != w else None
-                ctx.check(r == exp, "q:edge_id", f"{where}: edge_id({v},{w}) = {r!r}, expected {exp!r}")
-    for e, (a, b) in enumerate(medges):
-        ok, r = ctx.call("q:edge_to_vertices", C.edge_to_vertices, e)
+            polyline_query(pl, nV, medges, eid, nbr, ["edge_id", v, w], ctx, where, exact_pair=True)
+    for e in range(len(medges)):
+        polyline_query(pl, nV, medges, eid, nbr, ["edge_to_vertices", e, 0], ctx, where)
+        for o in (0, 1):
+            polyline_query(pl, nV, medges, eid, nbr, ["other_edge_end", e, o], ctx, where)
+
+
+def polyline_query(pl, nV, medges, eid, nbr, q, ctx, where, exact_pair=False):
+    """one connectivity query on a polyline, compared with the edge list"""
+    kind, a, b = q
+    C = pl.connectivity
+    sig = "q:" + kind
+    if kind == "edge_id":
+        if exact_pair:
+            v, w = a, b
+        elif medges and a % 4:
+            v, w = medges[(a // 4) % len(medges)][::1 if b % 2 else -1]       # mostly an existing edge, either order
+        else:
+            v, w = a % nV, b % nV
+        ok, r = ctx.call(sig, C.edge_id, v, w)
         if ok:
-            ctx.check(tuple(ints(r)) == (a, b), "q:edge_to_vertices", f"{where}: edge_to_vertices({e}) = {r}")
-        for w in (a, b):
-            ok, r = ctx.call("q:other_edge_end", C.other_edge_end, e, w)
-            if ok:
-                ctx.check(r == (b if w == a else a), "q:other_edge_end", f"{where}: other_edge_end({e},{w}) = {r!r}")
+            exp = eid.get(key(v, w)) if v != w else None
+            ctx.check(r == exp, sig, f"{where}: edge_id({v},{w}) = {r!r}, expected {exp!r}")
+    elif kind == "vertex_to_vertices":
+        v = a % nV
+        ok, r = ctx.call(sig, C.vertex_to_vertices, v)
+        if ok:
+            ctx.check(r is not None and sorted(ints(r)) == sorted(nbr[v]), sig, f"{where}: vertex_to_vertices({v}) = {r}, edges say {sorted(nbr[v])}")
+    elif kind == "vertex_to_edges":
+        v = a % nV
+        ok, r = ctx.call(sig, C.vertex_to_edges, v)
+        if ok:
+            exp = sorted(eid[key(v, w)] for w in nbr[v])
+            ctx.check(r is not None and None not in r and sorted(r) == exp, sig, f"{where}: vertex_to_edges({v}) = {r}, expected {exp}")
+    elif kind == "edge_to_vertices":
+        e = a % len(medges)
+        ok, r = ctx.call(sig, C.edge_to_vertices, e)
+        if ok:
+            ctx.check(tuple(ints(r)) == medges[e], sig, f"{where}: edge_to_vertices({e}) = {r}, expected {medges[e]}")
+    elif kind == "other_edge_end":
+        e = a % len(medges)
+        u, w = medges[e]
+        x = (u, w)[b % 2]
+        ok, r = ctx.call(sig, C.other_edge_end, e, x)
+        if ok:
+            ctx.check(r == (w if x == u else u), sig, f"{where}: other_edge_end({e},{x}) = {r!r}")
+    else:
+        raise AssertionError(kind)
+
+
+def polyline_touch(pl, nV, medges, spec, ctx, where):
+    """spec: 'none' | 'all' | list of single queries"""
+    if spec == "none":
+        return
+    if spec == "all":
+        polyline_sweep(pl, nV, medges, ctx, where)
+        return
+    eid = {e: i for i, e in enumerate(medges)}
+    nbr = {v: set() for v in range(nV)}
+    for a, b in medges:
+        nbr[a].add(b); nbr[b].add(a)
+    for q in spec:
+        polyline_query(pl, nV, medges, eid, nbr, q, ctx, where)
 
 
 def fn_polyline(case, ctx):
     import mouette as M
+    from mouette.mesh.mesh_data import RawMeshData
     V = np.array(case["V"], dtype=float).reshape(-1, 3)
     E = [key(e) for e in case["E"]]
-    ctx.label("kind=" + case["kind"], "pre-queried" if case["pre"] else "not-pre-queried", f"nops={len(case['ops'])}")
+    pre = case["pre"]
+    if isinstance(pre, bool):           # cases written before single queries were drawn
+        pre = "all" if pre else "none"
+    between = case.get("between", [])
+    ctx.label("kind=" + case["kind"], f"nops={len(case['ops'])}", f"scale={case.get('scale', 1.0):g}", "coords=" + case.get("vform", "float"))
+    if isinstance(pre, str):
+        ctx.label("pre-tables=" + ("nothing" if pre == "none" else "all"))
+    else:
+        label_pre(ctx, pre, POLY_TABLE)
     ctx.nontrivial(len(E) >= 2 or len(case["ops"]) >= 2)
-    pl = polyline_from(case["V"], [tuple(e) for e in case["E"]])
-    if case["pre"]:
-        polyline_sweep(pl, len(V), E, Pfx(ctx, "pre:"), "before editing")
+    if case.get("vform", "float") == "float":
+        pl = polyline_from(case["V"], [tuple(e) for e in case["E"]])
+    else:
+        raw = RawMeshData()
+        build_vertices(raw, case["V"], case["vform"])
+        raw.edges += [tuple(e) for e in case["E"]]
+        pl = M.mesh.PolyLine(raw)
+    polyline_touch(pl, len(V), E, pre, Pfx(ctx, "pre:"), "before editing")
     mV, mE = V, list(E)
+    nops = len(case["ops"])
     for k, a in enumerate(case["ops"]):
         e = a % len(mE)
         A, B = mE[e]
@@ -1176,8 +1455,24 @@ def fn_polyline(case, ctx):
                          f"{what}: the edge became {gE[e]} and {gE[-1]}, expected {key(A, Cn)} and {key(B, Cn)} (smallest index first)"):
             return
         mV, mE = gV, gE
-        if case["query_between"] or k == len(case["ops"]) - 1:
-            polyline_sweep(pl, len(mV), mE, ctx, what + " [connectivity afterwards]")
+        # connectivity after this split: the drawn single queries first (they are answered from whatever tables survived the
+        # split), and a full read-out after the last split
+        spec = between[k] if k < len(between) else "none"
+        hist = f" [tables touched so far: before={pre if isinstance(pre, str) else [q[0] for q in pre]}]"
+        # queries about the split edge itself, in the drawn kinds
+        if isinstance(spec, list):
+            eid = {x: i for i, x in enumerate(mE)}
+            nbr = {v: set() for v in range(len(mV))}
+            for x, y in mE:
+                nbr[x].add(y); nbr[y].add(x)
+            for q in spec:
+                kind = q[0]
+                for qq in ([kind, A, 0], [kind, B, 0], [kind, Cn, 0]) if kind in ("vertex_to_vertices", "vertex_to_edges") else \
+                          ([kind, A, B], [kind, A, Cn], [kind, Cn, B]) if kind == "edge_id" else ([kind, e, q[2]], [kind, len(mE) - 1, q[2]]):
+                    polyline_query(pl, len(mV), mE, eid, nbr, qq, ctx, what + " [split edge, connectivity afterwards]" + hist, exact_pair=True)
+        polyline_touch(pl, len(mV), mE, spec, ctx, what + " [connectivity afterwards]" + hist)
+        if k == nops - 1:
+            polyline_sweep(pl, len(mV), mE, ctx, what + " [full read-out after the last split]" + hist)
     # graph invariants (consequences of the step oracles, asserted for the record)
     ctx.check(len(mV) - len(mE) == len(V) - len(E), "topology:euler", "V-E changed")
 
